@@ -220,6 +220,9 @@ def compare_stream(st, flag_re, max_report=20, diff_violation=None, diff_ignore=
                     flagged.append({"op": op[:400], "go": g[:400], "lean": l[:400]})
                 else:
                     flagged.append(None)
+            # the Go-only oracle suffix is judged by the flag path above, the model never prints it
+            if " VIOL " in g and g.split(" VIOL ", 1)[0] == l:
+                l = g
             if g != l and diff_ignore and diff_ignore(op, g, l):
                 # the model declares the input outside its domain: only the Go-side oracle applies
                 st["ignored"] = st.get("ignored", 0) + 1
